@@ -169,6 +169,25 @@ def check_tree(desc, tier, twin=False):
                 outs.append((cls.__name__, ("refused", type(e).__name__)))
             except Exception as e:  # noqa: BLE001
                 outs.append((cls.__name__, ("exc", repr(e))))
+        # call history on ONE instance: whole tree, every distinct subexpression, whole tree again;
+        # every answer must be the answer of a fresh analysis (memo tables / CSE caches must not leak)
+        if hashable:
+            subs_ = [n for n in distinct_nodes(expr) if isinstance(n, p.Expression)][:8]
+            for cls in (DependencyMapper, CachedDependencyMapper):
+                try:
+                    m = cls(**kw)
+                    m(expr)
+                    for sub in [*subs_, expr]:
+                        got = m(sub)
+                        want = spec_deps(sub, tuple(eff))
+                        if got != want:
+                            outs.append((cls.__name__ + "-history", ("hist", f"after analysing the whole tree, the same instance "
+                                         f"reports {got!r} for subexpression {sub!r}; a fresh analysis gives {want!r}")))
+                            break
+                except (UnsupportedExpressionError, NotImplementedError):
+                    pass
+                except Exception as e:  # noqa: BLE001
+                    outs.append((cls.__name__ + "-history", ("exc", repr(e))))
         return kw, exp, outs
 
     ex = Explorer(pre=pre, max_paths=80, timeout_ms=10000)
@@ -185,6 +204,11 @@ def check_tree(desc, tier, twin=False):
             if o[0] == "exc":
                 if not reported:
                     viol(f"{name}-raises", f"{name}({kw}) raised {o[1]}")
+                    reported = True
+                continue
+            if o[0] == "hist":
+                if not reported:
+                    viol(f"{name}:{_flagsig(kw)}", f"{name}({kw}): {o[1]}")
                     reported = True
                 continue
             if o[1] != exp and not reported:
